@@ -8,7 +8,7 @@
 From Coq Require Import List NArith Bool.
 From Coq.Strings Require Import Byte.
 From EV Require Import Base.Bytes Base.Codec Base.Sha256 Gen.Tables Model.Tx Model.SighashImpl Model.SighashCache Model.SighashSpec Model.SighashQuery
-  Model.SighashCommit Proofs.SighashCache Proofs.Sighash Proofs.SighashCommit Proofs.SighashCommitTap Proofs.SighashCommitSeg Proofs.SighashCommitAll.
+  Model.SighashCommit Proofs.SighashCache Proofs.Sighash Proofs.SighashCommit Proofs.SighashCommitTap Proofs.SighashCommitSeg Proofs.SighashCommitAll Proofs.SighashCanon Proofs.Tx.
 Import ListNotations.
 Open Scope N_scope.
 
@@ -170,6 +170,11 @@ Theorem C03_committed_complete_taproot : forall t t' spent spent' idx idx' annex
   spec_taproot_digest pt_ok H Htag t spent idx annex leaf ht g = Some d -> spec_taproot_digest pt_ok H Htag t' spent' idx' annex' leaf' ht' g' = Some d' ->
   taproot_committed t spent idx annex leaf ht g = taproot_committed t' spent' idx' annex' leaf' ht' g' -> d = d'.
 Proof. exact (taproot_digest_complete pt_ok H Htag). Qed.
+(* the canonicity hypothesis holds of every transaction the consensus decoder returns (C01), for MAX_VEC_SIZE and caps below 2^64 *)
+Theorem C03_decoded_transactions_canonical : forall ci co cv bs t, maxvec < BIG -> ci < BIG -> co < BIG ->
+  deserialize (c_tx pt_ok maxvec ci co cv) bs = Some t -> canon_tx pt_ok t = true.
+Proof. intros ci co cv bs t M Ci Co D. apply (decoded_tx_canonical pt_ok maxvec ci co cv M Ci Co).
+  exact (proj2 (deserialize_exact _ (c_tx_lawful pt_ok maxvec ci co cv) bs t D)). Qed.
 (* the residual, positively: with the same issuing pattern the concatenation determines every issuance *)
 Theorem C03_issuances_given_pattern : forall l l', forallb (canon_in pt_ok) l = true -> forallb (canon_in pt_ok) l' = true ->
   map issuance_null l = map issuance_null l' ->
